@@ -482,9 +482,15 @@ def run(ctx):
     ev["changed"] = [[ev["m"], "fitted", "A.distributions[0]"]]
     if "EvalIsPure" not in ctx.validate("Trace_C19", "Trace_C19.cfg", [bad]).get(1, []):
         raise Machinery("self-test: fabricated mutation during evaluation was not rejected")
+    # growth: the top-level session life cycle (spec/Virocon.tla) - results are functions of the mutators only
+    from . import ext_virocon
+    ext_virocon.run_ext(ctx)
 
 
 def replay(ctx, case):
+    if "virocon" in case.get("case", {}):
+        from . import ext_virocon
+        return ext_virocon.replay_ext(ctx, case["case"])
     vc = import_virocon()
     c = case["case"]
     tmp = ctx.work / "files"
